@@ -356,9 +356,9 @@ Require Import Laze.model.Load.
 (* convert_module: a module with `download:` is a build dependency, exports the tag file of its
    download directory among its build-dep files, and (without an explicit srcdir:) has that
    directory as source directory — so by (2) each of its own sources waits for the tag file. *)
-Theorem convert_module_download build_dir y context is_binary filename defaults m d :
-  convert_module build_dir y context is_binary filename defaults = Ok m -> ym_download y = Some d ->
-  let m0 := init_module (ym_name y) context is_binary filename defaults in
+Theorem convert_module_download build_dir y context is_binary filename root defaults m d :
+  convert_module build_dir y context is_binary filename root defaults = Ok m -> ym_download y = Some d ->
+  let m0 := init_module (ym_name y) context is_binary filename root defaults in
   let dir := dl_srcdir build_dir d (odflt [ch_dot] (m_relpath m0)) (m_name m0) in
   m_download m = Some d /\ m_is_build_dep m = true /\
   (exists ld, m_build_dep_files m = Some ld /\ In (dl_tagfile d dir) ld) /\
